@@ -8,7 +8,8 @@ import Tickit.Gen.ModeLayout
   (`toplevel = false`) or owned by a toplevel instance.  `validFrom .running ops = some ph` says that the
   history keeps the documented contract (`Modes.phaseNext`, `Modes.opOk`) and ends in phase `ph`.
   The terminal is the byte-level VT mode-state interpreter `Modes.VT`, started in any mode state `m0`
-  in which the four listed modes are off (`VModes.standard`; blink, shape, DECLRMM are arbitrary).
+  in which the four listed modes are off (`VModes.standard`; blink, shape, DECLRMM are arbitrary); the last
+  section takes the hand-over state as a parameter (`VModes.handover`: the cursor may be hidden).
 
   The model is parameterised by `Modes.Cfg`: which of the three repair sites the working tree has
   (read from the source on every run into `Gen.ModeLayout`).  Every theorem is stated for every `Cfg`
@@ -485,5 +486,187 @@ theorem shape_survives_late_reply (cfg : Cfg) (hr : cfg.repliesGuarded = true) (
 example : getctlInt (sysAfter Cfg.repaired false [.ctl (some .cursorshape) 2, .replyShape 1, .replyMode 12 1]).term.drv
     (some .cursorshape) = some 2 ∧
     validFrom .running [.ctl (some .cursorshape) 2, .replyShape 1, .replyMode 12 1] = some .running := by decide
+
+/-! ### the mode state at hand-over as a parameter: a terminal handed over with its cursor hidden -/
+
+/-- **handover_restores** (full statement; open for a hidden cursor, see `handover_restores_partial`).  The mode
+    state the terminal is handed over in is a parameter of the history, not a constant: for every such state
+    (`VModes.handover`: cursor visible or hidden), every history inside the contract whose replies are those of
+    that terminal and which leaves cursor visibility alone when the cursor was handed over hidden
+    (`handoverOk`), the terminal reading the whole stream is back in *that* state after pause / teardown, and
+    after destruction. -/
+def HandoverRestores (cfg : Cfg) : Prop :=
+  ∀ (toplevel : Bool) (m0 : VModes) (ops : List Op) (ph : Phase), m0.handover = true →
+    validFrom .running ops = some ph → ops.all (handoverOk m0) = true →
+    (ph ≠ .running → restoredOk (vtAfter cfg toplevel m0 ops) m0 = true) ∧
+    restoredOk (VT.feed (vtAfter cfg toplevel m0 ops) (sysAfter cfg toplevel ops).destroy) m0 = true
+
+/-- A DECRPM reply for mode 25 other than "set" leaves the driver's shadow alone. -/
+theorem modereport_reset_keeps_shadow (cfg : Cfg) (d : XDrv) (v : Int) (hv : v ≠ 1) :
+    (onModereport cfg d 25 v).mode = d.mode := by
+  simp [onModereport, hv]
+
+/-- What the driver's shadow says while the program leaves cursor visibility alone. -/
+structure VisUntouched (d : XDrv) : Prop where
+  vis : d.mode.cursorvis = 1
+  mouse : d.mode.mouse ≤ 3
+
+theorem wrapU_mouse_le (v : Int) : wrapU ModeLayout.w_mode_mouse v ≤ 3 := by
+  have hw : ModeLayout.w_mode_mouse = 2 := by decide
+  unfold wrapU
+  rw [hw]
+  have h1 := Int.emod_lt_of_pos v (show (0 : Int) < 2 ^ 2 by decide)
+  have h2 := Int.emod_nonneg v (show ((2 : Int) ^ 2) ≠ 0 by decide)
+  omega
+
+theorem applyReply_untouched (cfg : Cfg) (d : XDrv) (r : Reply) (h : VisUntouched d) : VisUntouched (applyReply cfg d r) := by
+  obtain ⟨hv, hm⟩ := h
+  cases r with
+  | mode m v =>
+    simp only [applyReply, onModereport]
+    have hw : wrapU ModeLayout.w_mode_cursorvis 1 = 1 := by decide
+    split
+    · constructor <;> (simp only []; split <;> simp_all)
+    · split
+      · constructor <;> (simp only []; split <;> simp_all)
+      · split
+        · exact ⟨hv, hm⟩
+        · exact ⟨hv, hm⟩
+  | shape v => exact ⟨hv, hm⟩
+  | sgr c r => exact ⟨hv, hm⟩
+
+theorem foldl_untouched (cfg : Cfg) : ∀ (rs : List Reply) (d : XDrv), VisUntouched d → VisUntouched (rs.foldl (applyReply cfg) d)
+  | [], _, h => h
+  | r :: rs, d, h => foldl_untouched cfg rs _ (applyReply_untouched cfg d r h)
+
+theorem setctl_untouched (cfg : Cfg) (d : XDrv) (c : Option Ctl) (v : Int) (hc : c ≠ some .cursorvis)
+    (h : VisUntouched d) : VisUntouched (setctlInt cfg d c v).1 := by
+  obtain ⟨hv, hm⟩ := h
+  have hmw := wrapU_mouse_le v
+  cases c with
+  | none => exact ⟨hv, hm⟩
+  | some c =>
+    cases c <;> simp only [setctlInt] <;> first
+      | exact absurd rfl hc
+      | exact ⟨hv, hm⟩
+      | (split <;> first | exact ⟨hv, hm⟩ | (constructor <;> (split <;> simp_all)) | (constructor <;> simp_all))
+      | (constructor <;> simp_all)
+
+theorem step_untouched (cfg : Cfg) (s : Sys) (op : Op) (ht : touchesVis op = false) (h : VisUntouched s.term.drv) :
+    VisUntouched (s.step cfg op).sys.term.drv := by
+  cases op with
+  | ctl c v =>
+    have hc : c ≠ some .cursorvis := by intro e; subst e; simp [touchesVis] at ht
+    exact setctl_untouched cfg _ c v hc h
+  | replyMode m v =>
+    simp only [Sys.step, Term.reply]; split
+    · exact foldl_untouched cfg _ _ h
+    · exact h
+  | replyShape v =>
+    simp only [Sys.step, Term.reply]; split
+    · exact foldl_untouched cfg _ _ h
+    · exact h
+  | replySgr c r =>
+    simp only [Sys.step, Term.reply]; split
+    · exact foldl_untouched cfg _ _ h
+    · exact h
+  | setpen p => exact h
+  | chpen p => exact h
+  | setstr c p => exact h
+  | print b => exact h
+  | clear => exact h
+  | flush => exact h
+  | await m => simp only [Sys.step, Term.await]; split <;> exact h
+  | pause => exact h
+  | resume => exact h
+  | teardown => simp only [Sys.step, Term.teardown]; split <;> exact h
+  | tick nosetup =>
+    have hn : nosetup = true := by simpa [touchesVis] using ht
+    subst hn
+    simp only [Sys.step]; split
+    · exact h
+    · simp; exact h
+  | usealt v => simp only [Sys.step]; split <;> exact h
+
+/-- **the shadow is not the hand-over state.**  As long as the program leaves cursor visibility alone, the
+    driver's shadow keeps saying "visible", whatever the terminal replies. -/
+theorem run_untouched (cfg : Cfg) : ∀ (ops : List Op) (s : Sys), ops.all (fun op => !touchesVis op) = true →
+    VisUntouched s.term.drv → VisUntouched (Sys.run cfg s ops).1.term.drv
+  | [], _, _, h => h
+  | op :: rest, s, ht, h => by
+    simp only [List.all_cons, Bool.and_eq_true, Bool.not_eq_true'] at ht
+    exact run_untouched cfg rest _ ht.2 (step_untouched cfg s op ht.1 h)
+
+theorem build_untouched (toplevel : Bool) : VisUntouched (Sys.build toplevel).1.term.drv := ⟨rfl, by cases toplevel <;> decide⟩
+
+/-- On a terminal handed over with a hidden cursor, the contract makes every operation leave visibility alone. -/
+theorem handoverOk_hidden (m0 : VModes) (h0 : m0.cursorVisible = false) (ops : List Op)
+    (h : ops.all (handoverOk m0) = true) : ops.all (fun op => !touchesVis op) = true := by
+  rw [List.all_eq_true] at h ⊢
+  intro op hop
+  have := h op hop
+  simp [handoverOk, h0] at this
+  simp [this.2]
+
+/-- **handover_restores_partial.**  A terminal handed over with its cursor hidden, any history inside the hand-over
+    contract (any replies, at any time): the bytes of pause, of teardown, of destruction and of the driver's resume
+    leave the cursor visibility of a terminal that reads them as it is - "only modes the library switched on are
+    switched back". -/
+theorem handover_restores_partial (cfg : Cfg) (toplevel : Bool) (m0 : VModes) (ops : List Op)
+    (h0 : m0.cursorVisible = false) (hok : ops.all (handoverOk m0) = true) (m : VModes) (A : Attrs) :
+    let s := sysAfter cfg toplevel ops
+    (VT.feed ⟨.ground, m, A⟩ (Term.pause s.term).2).modes.cursorVisible = m.cursorVisible ∧
+    (VT.feed ⟨.ground, m, A⟩ (Term.teardown s.term).2).modes.cursorVisible = m.cursorVisible ∧
+    (VT.feed ⟨.ground, m, A⟩ s.destroy).modes.cursorVisible = m.cursorVisible ∧
+    (VT.feed ⟨.ground, m, A⟩ (drvResume (Term.pause s.term).1.drv)).modes.cursorVisible = m.cursorVisible := by
+  intro s
+  have hu : VisUntouched s.term.drv :=
+    run_untouched cfg ops _ (handoverOk_hidden m0 h0 ops hok) (build_untouched toplevel)
+  obtain ⟨hv, hm⟩ := hu
+  have hT : ∀ m A, (VT.feed ⟨.ground, m, A⟩ (drvTeardown s.term.drv)).modes.cursorVisible = m.cursorVisible := by
+    intro m A; rw [feed_drvTeardown _ _ _ hm]; simp [hv]
+  have hTd : (VT.feed ⟨.ground, m, A⟩ (Term.teardown s.term).2).modes.cursorVisible = m.cursorVisible := by
+    simp only [Term.teardown]; split
+    · exact hT m A
+    · rfl
+  refine ⟨hT m A, hTd, ?_, ?_⟩
+  · show (VT.feed ⟨.ground, m, A⟩ ((Term.teardown s.term).2 ++ (Term.teardown (Term.teardown s.term).1).2)).modes.cursorVisible = _
+    rw [(Term.teardown_twice s.term).1, List.append_nil]; exact hTd
+  · show (VT.feed ⟨.ground, m, A⟩ (drvResume s.term.drv)).modes.cursorVisible = _
+    rw [feed_drvResume _ _ _ hm]; simp [hv]
+
+/-- A terminal handed over with its cursor hidden (blink, shape arbitrary). -/
+def hiddenM0 : VModes := { cursorVisible := false }
+
+/-- The terminal says so, the program switches other modes on, pauses, resumes, tears down, is destroyed. -/
+def hiddenHistory : List Op :=
+  [.replyMode 25 2, .ctl (some .altscreen) 1, .ctl (some .mouse) 2, .pause, .resume, .teardown]
+
+set_option maxRecDepth 8000 in
+/-- Non-vacuity, and the whole statement on a concrete history of the working tree: inside the contract, and the
+    terminal that reads the whole stream ends hidden, as it started - after the pause, after the teardown and
+    after destruction. -/
+theorem handover_restores_example :
+    hiddenM0.handover = true ∧ validFrom .running hiddenHistory = some .stopped ∧
+    hiddenHistory.all (handoverOk hiddenM0) = true ∧
+    restoredOk (vtAfter Cfg.tree false hiddenM0 (hiddenHistory.take 4)) hiddenM0 = true ∧
+    restoredOk (vtAfter Cfg.tree false hiddenM0 hiddenHistory) hiddenM0 = true ∧
+    restoredOk (VT.feed (vtAfter Cfg.tree false hiddenM0 hiddenHistory) (sysAfter Cfg.tree false hiddenHistory).destroy) hiddenM0 = true := by
+  decide
+
+set_option maxRecDepth 8000 in
+/-- The contract clause is necessary: the shadow has one bit and no record of the hand-over state, so a program
+    that hides the (already hidden) cursor through the control gets it shown by destruction - whatever the
+    repairs. -/
+theorem handover_hide_not_restored (k p u r q : Bool) :
+    restoredOk (VT.feed (vtAfter ⟨k, p, u, r, q⟩ false hiddenM0 [.ctl (some .cursorvis) 0])
+      (sysAfter ⟨k, p, u, r, q⟩ false [.ctl (some .cursorvis) 0]).destroy) hiddenM0 = false := by
+  cases k <;> cases p <;> cases u <;> cases r <;> cases q <;> decide
+
+set_option maxRecDepth 8000 in
+/-- … and one that asks for a visible cursor gets none: the driver takes the setting for redundant. -/
+theorem handover_show_not_shown (k p u r q : Bool) :
+    (vtAfter ⟨k, p, u, r, q⟩ false hiddenM0 [.ctl (some .cursorvis) 1]).modes.cursorVisible = false := by
+  cases k <;> cases p <;> cases u <;> cases r <;> cases q <;> decide
 
 end Tickit.Props.C12
